@@ -10,7 +10,7 @@ REPO = os.environ.get('VERIF_REPO', '/repo')
 CACHE = os.environ.get('VERIF_CACHE', os.path.join(ROOT, '.cache'))
 GUARD = 'ASL_VERIF'
 
-UBSAN = 'bounds,null,return,unreachable,bool,enum,vla-bound,builtin'
+UBSAN = 'bounds,null,return,unreachable,vla-bound,builtin'  # not bool/enum: gcc 12 hoists the load of a volatile bool out of a spin loop when -fsanitize=bool instruments it (Thread.h ready flag -> livelock)
 
 VARIANTS = {
     # name: (compiler, compile flags, link flags)
